@@ -53,7 +53,7 @@ var focusTags = map[string][]string{
 	"C03": {"core", "C03"},
 	"C04": {"storage", "multisig", "miner", "vesting", "zcn", "C04"},
 	"C05": {"core", "faucet", "stake", "vesting"},
-	"C07": {"storage", "miner", "stake", "partition"},
+	"C07": {"storage", "miner", "stake", "partition", "C07"},
 	"C09": {"storage", "stake", "vesting", "zcn", "fees"},
 	"C11": {"stake"},
 	"C12": {"C12", "alloc", "marker", "challenge"},
@@ -202,6 +202,9 @@ func childMain(prop, tier string, idx, nh, nl int) (code int) {
 		setupHistory(h, mons)
 		if prop == "C07" && j%2 == 0 {
 			forkScenarioC07(h, mons)
+		}
+		if prop == "C07" && j%2 == 1 {
+			partsScenarioC07(h, mons)
 		}
 		for k := 0; k < nl; k++ {
 			op := ops[r.Pick(wts)]
